@@ -401,7 +401,7 @@ func ruleZeroFieldIsZero(c *Ctx) {
 			return
 		}
 		for _, cd := range g.CondsAtInstr(in) {
-			if b, ok := cd.V.(*ssa.BinOp); ok && b.Op == token.EQL && cd.Sense {
+			if b, ok := cd.V.(*ssa.BinOp); ok && eqHolds(b, cd) {
 				if s, isK := constStr(b.Y); isK && s == "" {
 					okc = true
 				}
